@@ -297,15 +297,22 @@ type env struct {
 	actN   atomic.Int32 // ActivateSession requests seen
 }
 
+// faultStatus is the status of ServiceFaults / Bad service results of the current case (flags n, U)
+var faultStatus = ua.StatusBadUserAccessDenied
+
 // wrap gives the answer of the given kind: good(hdr) builds the expected type.
 func wrap(kind string, req ua.Request, good func(hdr *ua.ResponseHeader) ua.Response) ua.Response {
 	switch kind {
 	case "ok":
 		return good(sscript.Header(req, ua.StatusOK))
 	case "badStatus":
-		return good(sscript.Header(req, ua.StatusBadInternalError))
+		st := ua.StatusBadInternalError
+		if faultStatus != ua.StatusBadUserAccessDenied {
+			st = faultStatus
+		}
+		return good(sscript.Header(req, st))
 	case "fault":
-		return sscript.Fault(req, ua.StatusBadUserAccessDenied)
+		return sscript.Fault(req, faultStatus)
 	case "notResponse":
 		// a decodable service message that is not a response: a request echoed back
 		return &sscript.RawMessage{Body: &ua.FindServersRequest{RequestHeader: &ua.RequestHeader{
@@ -345,6 +352,9 @@ func (e *env) dataValues() []*ua.DataValue {
 
 func (e *env) statuses() []ua.StatusCode {
 	r := e.k.res()
+	if len(r) == 0 && e.k.has('N') {
+		return nil // a null array (-1) instead of an empty one
+	}
 	out := make([]ua.StatusCode, len(r))
 	for i, ok := range r {
 		out[i] = badOr(ok)
@@ -594,6 +604,9 @@ func (e *env) script(s *sscript.Server, sc *uasc.SecureChannel, r ua.Request) ua
 			for i, ok := range k.res() {
 				res[i] = &ua.BrowsePathResult{StatusCode: badOr(ok)}
 				if i == 0 {
+					if !k.has('N') {
+						res[i].Targets = []*ua.BrowsePathTarget{} // empty, not null
+					}
 					for j := 0; j < k.nReq; j++ {
 						res[i].Targets = append(res[i].Targets, &ua.BrowsePathTarget{TargetID: &ua.ExpandedNodeID{NodeID: ua.NewNumericNodeID(1, uint32(j))}})
 					}
@@ -643,6 +656,13 @@ func nodes(n int) []*ua.NodeID {
 // one runs one case and returns (answer line, extra text).
 func one(k kase) (line, extra string) {
 	e := &env{k: k}
+	faultStatus = ua.StatusBadUserAccessDenied
+	if k.has('n') {
+		faultStatus = ua.StatusBadNothingToDo // a status some code paths like to treat as "fine"
+	}
+	if k.has('U') {
+		faultStatus = ua.StatusBadServiceUnsupported
+	}
 	srv, err := sscript.Start(nil, nil, e.script)
 	if err != nil {
 		fmt.Println("infra listen:", err)
@@ -1122,6 +1142,52 @@ func genCases(o *h.Opts, rnd *h.Rand) []kase {
 			k.nReq, k.results, k.notifs = 0, gb(rnd.Intn(4), rnd.Intn(8)), string(b)
 			k.flags = []string{"-", "k", "p", "P"}[rnd.Intn(4)]
 			add(k)
+		}
+	}
+	// a fault / Bad service result whose status is one that code likes to special-case
+	for _, fl := range []string{"n", "U"} {
+		for _, kd := range []string{"fault", "badStatus"} {
+			for _, op := range append(append([]string{}, plainOps...), "call", "nodeAttribute", "references", "translate", "subscribe",
+				"subCancel", "subMonitor", "subModifyItems", "recreateItems", "transferOnReconnect", "publish") {
+				if !o.Thorough() && fl == "U" && op != "transferOnReconnect" && op != "recreateItems" {
+					continue
+				}
+				k := base(op)
+				k.kind, k.flags = kd, fl
+				if op == "publish" {
+					k.nReq, k.results, k.notifs = 0, "-", "d"
+				}
+				add(k)
+				if op == "transferOnReconnect" || op == "recreateItems" || op == "subMonitor" || op == "subModifyItems" {
+					// … also with no and with several request items (a client without subscriptions / items)
+					for _, n := range []int{0, 2} {
+						k.nReq = n
+						add(k)
+					}
+				}
+			}
+		}
+	}
+	// keep-alive and data messages for an unknown subscription, with and without ack results
+	for _, nf := range []string{"-", "d", "n"} {
+		for _, rs := range []string{"-", "g"} {
+			for _, fl := range []string{"k", "kp"} {
+				k := base("publish")
+				k.nReq, k.results, k.flags, k.notifs = 0, rs, fl, nf
+				add(k)
+			}
+		}
+	}
+	// empty arrays as null (-1) as well as empty (0)
+	for _, op := range []string{"translate", "subCancel", "subMonitor", "subModifyItems", "call", "references", "read", "write"} {
+		for _, n := range []int{0, 1} {
+			k := base(op)
+			k.nReq, k.results, k.flags = n, "-", "N"
+			add(k)
+			if op == "translate" {
+				k.results = "g"
+				add(k)
+			}
 		}
 	}
 	// acknowledgements pending when the response arrives: every result count against 1 and 2 pending acks
